@@ -7,7 +7,7 @@ P=$1; W=${2:-0}
 src=/tmp/wt/out/W-$P; d=/verif/seeded/W-$P
 [ -f "$src/patch.diff" ] && [ -f "$src/demo.rs" ] || { echo "W-$P: incomplete delivery"; exit 2; }
 mkdir -p "$d"; cp "$src/patch.diff" "$src/demo.rs" "$d/"; [ -f "$src/notes.md" ] && cp "$src/notes.md" "$d/"
-cp /tmp/wt/w8_$P.prop.txt "$d/prop.txt"
+cp /tmp/wt/w8_$P.prop.txt "$d/property_text.txt"; echo "$P" > "$d/prop.txt"
 export SEED_MUT=/tmp/wt/mut$W SEED_LIVE=1
 python3 /verif/tools/seedtest.py verify "$d" > "$d/verify.log" 2>&1
 python3 /verif/tools/seedtest.py matrix "$d" "$P" > "$d/matrix.log" 2>&1
